@@ -1,4 +1,6 @@
 """C23 - a C-CANCEL reaches exactly the operation it names (engine E3 + engines/qrsub.py, C-CANCEL injection)."""
+import os
+
 from engines import qrsub as Q
 from engines import syncassoc as SA
 from refs import subop_ref as R
@@ -19,7 +21,15 @@ RULE = (
     "points the handler reads event.is_cancelled; optionally it then yields 0xFE00 and returns as documented. The recorded "
     "history (cancel arrivals, polls) is judged by an independent model. Non-trivial = an operation polled while a cancel "
     "for ANOTHER id had arrived during it, or after a cancel with its own id had arrived before it started, or with a "
-    "matching cancel arriving between two polls. Distinct = distinct case."
+    "matching cancel arriving between two polls. Distinct = distinct case. "
+    "Pipelined histories (about a third of the multi-operation cases; PIPELINED = False drops them): at a generated execution "
+    "point of a C-FIND/C-MOVE handler the request(s) of the following 1..2 operation(s) arrive through receive_primitive and "
+    "are queued while the current operation is still being served (never behind a C-GET, whose sub-operation responses use "
+    "the same queue); cancels naming the running operation, the queued one(s), the one after or unrelated IDs arrive before "
+    "and after those requests; the queued operation is dispatched when its predecessor has ended and polls like any other. "
+    "Operations that can be in progress together get different message IDs. Also non-trivial: a poll by an operation whose "
+    "request was received behind a running one after a cancel naming it, or a poll after a later request arrived between a "
+    "matching cancel and the poll."
 )
 ASSUMPTIONS = [
     "an operation is in progress from the moment its request primitive has been received by the DIMSE provider "
@@ -27,6 +37,14 @@ ASSUMPTIONS = [
     "after sending the request, so a C-CANCEL that follows the request on the wire is for that operation. Cancels that "
     "arrive between receipt and dispatch are a separately labelled class (clause missed, key received-before-dispatch; "
     "set QUEUED_WINDOW = False to drop the class if 'in progress' is to mean 'being served')",
+    "pipelined requests: pynetdicom always negotiates an asynchronous operations window of (1, 1), so a conformant peer does "
+    "not send a request before the final response of the previous one; the public API of pynetdicom's own requestor does "
+    "produce it (send_c_find() called again before the first generator is consumed), so these histories are judged too, by "
+    "the SAME rule: the queued operation is in progress from the receipt of its request, hence a C-CANCEL naming it that "
+    "arrives while its predecessor is still being served is for it (must-report at its first poll) and a C-CANCEL naming "
+    "it that arrived before its request is stale (must-not-report); the running operation's own cancels stay must-report "
+    "whatever other requests arrive meanwhile. If one C-CANCEL names two operations in progress the reads of both are "
+    "unconstrained (the generator avoids it)",
     "must-report: once a matching C-CANCEL has arrived during the operation, the next read of event.is_cancelled is True; "
     "must-not-report: before any matching C-CANCEL has arrived during the operation every read is False, whatever arrived "
     "for other IDs, before the operation, or during earlier operations (also with the same message ID)",
@@ -41,7 +59,10 @@ SHARDS = {"quick": 1, "thorough": 16}
 MIN_NONTRIVIAL = 50
 
 
-QUEUED_WINDOW = True
+# 'in progress' from receipt of the request (True, the stated assumption) or only while being served (False);
+# VERIF_C23_IN_PROGRESS=served selects the second reading for experiments
+QUEUED_WINDOW = os.environ.get("VERIF_C23_IN_PROGRESS", "receipt") != "served"
+PIPELINED = True  # generate histories in which the next request(s) arrive while an operation is still being served
 
 
 class _Stop(Exception):
@@ -90,48 +111,74 @@ def check_cancel(ctx, case):
 
 def _check(ctx, case):
     a = Q.make_assoc()
-    log = []  # ("cancel", window, id, op_index) | ("start", oi, msg_id) | ("poll", oi, result) | ("end", oi)
+    # ("recv", oi, msg_id) | ("serve", oi) | ("cancel", id) | ("poll", oi, result) | ("end", oi)
+    log = []
     problems = []
     classes = set()
     stopped = None
 
-    def deliver(mid, window, oi, cx):
-        log.append(("cancel", window, mid, oi))
+    def deliver(mid, cx):
+        log.append(("cancel", mid))
         try:
             SA.inject_message(a, cancel_primitive(mid), cx)
         except Exception as e:  # receive_primitive must take any valid C-CANCEL
             problems.append(e)
 
     ops = case["ops"]
+    qops = [build_op(op) for op in ops]
+    received = set()  # indexes of the operations whose request has been delivered
+
+    def deliver_next_requests(oi, count):
+        """A pipelining peer: the requests of the following operation(s) arrive while operation `oi` is being served.
+        Nothing is ever queued behind a C-GET (its C-STORE sub-operation responses travel through the same queue)."""
+        if not PIPELINED or ops[oi]["svc"] == "get":
+            return
+        for _ in range(count):
+            nxt = max(received) + 1
+            if nxt >= len(ops) or any(ops[k]["svc"] == "get" for k in range(oi, nxt)):
+                return
+            log.append(("recv", nxt, ops[nxt]["msg_id"]))
+            received.add(nxt)
+            try:
+                Q.deliver_request(a, qops[nxt])
+            except Exception as e:
+                problems.append(e)
+
     for oi, op in enumerate(ops):
-        qop = build_op(op)
+        qop = qops[oi]
         cx = Q.CX[Q.SVC_UID[op["svc"]]]
         for mid in op.get("before", []):
-            deliver(mid, "idle", oi, cx)
+            if oi in received and not QUEUED_WINDOW:
+                break  # the request is already there: these would fall into the (dropped) queued window
+            deliver(mid, cx)
         if head_is_cancel(a):
             stopped = "reactor-would-crash"
             break
         # the request always arrives as the peer's P-DATA and is dispatched the way _run_reactor does it; the
         # "queued" window (cancels between receipt and dispatch) is empty unless the case says otherwise
-        via_queue = True
         slots = op.get("slots", [])
-        started = {"v": False}
+        served = {"v": False}
 
-        def hook(slot, event, op=op, oi=oi, cx=cx, slots=slots, started=started):
+        def hook(slot, event, op=op, oi=oi, cx=cx, slots=slots, served=served):
             if slot == "queued":
-                log.append(("start", oi, op["msg_id"]))
-                started["v"] = True
+                if oi not in received:
+                    log.append(("recv", oi, op["msg_id"]))
+                    received.add(oi)
                 for mid in op.get("queued", []) if QUEUED_WINDOW else []:
-                    deliver(mid, "queued", oi, cx)
+                    deliver(mid, cx)
                 return None
-            if not started["v"]:
-                log.append(("start", oi, op["msg_id"]))
-                started["v"] = True
+            if not served["v"]:
+                log.append(("serve", oi))
+                served["v"] = True
             s = slots[slot] if slot < len(slots) else None
             if not s:
                 return None
             for mid in s.get("cancels", []):
-                deliver(mid, "during", oi, cx)
+                deliver(mid, cx)
+            if s.get("next"):
+                deliver_next_requests(oi, s["next"])
+                for mid in s.get("cancels_after", []):
+                    deliver(mid, cx)
             if s.get("poll"):
                 try:
                     r = event.is_cancelled
@@ -143,9 +190,9 @@ def _check(ctx, case):
                     return "stop"
             return None
 
-        res = Q.run_op(a, qop, hook=hook, via_queue=via_queue, wire=True)
-        if not started["v"]:
-            log.append(("start", oi, op["msg_id"]))  # handler never ran (e.g. request refused)
+        res = Q.run_op(a, qop, hook=hook, via_queue=True, wire=True, inject=oi not in received)
+        if not served["v"]:
+            log.append(("serve", oi))  # handler never ran (e.g. request refused)
         log.append(("end", oi))
         classes.add("svc:" + op["svc"])
         if res.escaped is not None:
@@ -155,7 +202,7 @@ def _check(ctx, case):
             break
     else:
         for mid in case.get("after", []):
-            deliver(mid, "idle", len(ops), Q.CX[Q.PR_FIND])
+            deliver(mid, Q.CX[Q.PR_FIND])
 
     left = queue_has_cancel(a)
     if left:
@@ -164,44 +211,64 @@ def _check(ctx, case):
         classes.add(stopped)
 
     # ------------------------------------------------------------------ judge the history
-    M = R.CancelModel()
+    M = R.CancelModel("receipt" if QUEUED_WINDOW else "served")
     verdicts = []  # (clause, key, message)
     nontrivial = False
     polls = 0
     for ev in log:
-        if ev[0] == "start":
-            M.start(ev[2])
+        if ev[0] == "recv":
+            o = M.receive(ev[1], ev[2])
+            if o.behind:
+                classes.add("pipelined:request-received-behind-running-operation")
+        elif ev[0] == "serve":
+            M.serve(ev[1])
         elif ev[0] == "end":
-            M.end()
+            M.end(ev[1])
         elif ev[0] == "cancel":
-            _, window, mid, _oi = ev
-            M.cancel(mid, window)
-            classes.add(
-                "cancel:" + window + (":matching" if (M.in_progress is not None and mid == M.in_progress) else ":other")
-            )
+            mid = ev[1]
+            cur = M.ops.get(M.serving)
+            window = "during" if cur is not None else ("queued" if M.ops else "idle")
+            queued_named = any(o.msg_id == mid and o.key != M.serving for o in M.ops.values())
+            M.cancel(mid)
+            if cur is not None and cur.msg_id == mid:
+                what = ":matching"
+            elif queued_named:
+                what = ":matching-queued-operation" if cur is not None else ":matching"
+            else:
+                what = ":other"
+            classes.add("cancel:" + window + what)
         else:
             _, oi, r = ev
             polls += 1
-            want = M.expect_poll()
+            o = M.op(oi)
+            want = M.expect_poll(oi)
             classes.add("poll:" + str(r).lower())
-            if M.others_during or M.stale_same_id or (M.matching_arrived and M.polled_before_match):
+            if o.others_during or o.stale_same_id or (o.matching_arrived and o.polled_before_match) or (o.behind and o.matching_arrived) or o.request_received_while_pending:
                 nontrivial = True
-            if M.others_during and M.max_pending >= 10:
+            if o.others_during and o.max_pending >= 10:
                 classes.add("flood>=10-pending")
-            if M.stale_same_id:
+            if o.stale_same_id:
                 classes.add("polled-after-stale-cancel-with-same-id")
-            if M.others_during:
+            if o.others_during:
                 classes.add("polled-with-other-id-pending")
+            if o.behind:
+                classes.add("pipelined:polled-by-operation-received-behind")
+                if o.matching_arrived:
+                    classes.add("pipelined:polled-after-matching-cancel-while-queued-behind")
+            if o.request_received_while_pending:
+                classes.add("pipelined:request-received-between-matching-cancel-and-poll")
+            if o.ambiguous:
+                classes.add("pipelined:cancel-names-two-operations(unconstrained)")
             if want is None:
                 classes.add("poll-after-report(unconstrained)")
             if want is False and r:
-                cause = "stale-same-id" if M.stale_same_id else ("other-id" if M.others_during else "no-cancel-at-all")
-                verdicts.append(("spurious", cause, f"operation #{oi} (message ID {M.in_progress}) read is_cancelled == True although no C-CANCEL naming it arrived while it was in progress"))
+                cause = "stale-same-id" if o.stale_same_id else ("other-id" if o.others_during else "no-cancel-at-all")
+                verdicts.append(("spurious", cause, f"operation #{oi} (message ID {o.msg_id}) read is_cancelled == True although no C-CANCEL naming it arrived while it was in progress"))
                 break
             if want is True and not r:
-                verdicts.append(("missed", M.miss_cause(), f"operation #{oi} (message ID {M.in_progress}) read is_cancelled == False although a C-CANCEL naming it had arrived while it was in progress ({M.describe()})"))
+                verdicts.append(("missed", M.miss_cause(oi), f"operation #{oi} (message ID {o.msg_id}) read is_cancelled == False although a C-CANCEL naming it had arrived while it was in progress ({M.describe(oi)})"))
                 break
-            M.polled(r)
+            M.polled(oi, r)
     classes.add(f"ops={len(ops)}")
     ncancel = sum(1 for e in log if e[0] == "cancel")
     classes.add("cancels=0" if ncancel == 0 else ("cancels=1-4" if ncancel <= 4 else ("cancels=5-9" if ncancel <= 9 else "cancels>=10")))
@@ -250,7 +317,16 @@ def strategy(quick):
     flood = st.tuples(st.integers(9, 12), st.booleans()).map(lambda t: [["id", OTHER[i]] for i in range(t[0])] + ([["cur"]] if t[1] else []))
     cancels = weighted((10, few), (5, st.just([])))
     slot_cancels = weighted((20, few), (10, st.just([])), (1, flood))
-    slot = st.fixed_dictionaries({"cancels": slot_cancels, "poll": st.sampled_from([True, True, True, False])})
+    # pipelining: at this execution point the request(s) of the following operation(s) arrive, then more cancels
+    after_ref = weighted((6, st.just(["next"])), (4, st.just(["cur"])), (1, st.just(["next2"])), (3, st.sampled_from(OTHER).map(lambda v: ["id", v])))
+    slot = st.fixed_dictionaries(
+        {
+            "cancels": slot_cancels,
+            "next": st.sampled_from([0] * 11 + [1] * 4 + [2]),
+            "cancels_after": st.lists(after_ref, min_size=0, max_size=2),
+            "poll": st.sampled_from([True, True, True, False]),
+        }
+    )
     op = st.fixed_dictionaries(
         {
             "svc": st.sampled_from(["find", "find", "get", "move", "mwl", "srfind"]),
@@ -268,6 +344,13 @@ def strategy(quick):
     def assemble(t):
         ops, after = t
         ids = [o["msg_id"] for o in ops]
+        if any(s.get("next") for o in ops for s in o["slots"]):
+            # operations that may be in progress at the same time carry different message IDs (a peer could not name
+            # one of two outstanding operations otherwise)
+            for k in range(1, len(ids)):
+                while ids[k] in ids[:k]:
+                    ids[k] = (ids[k] + 1) & 0xFFFF
+            ops = [dict(o, msg_id=ids[k]) for k, o in enumerate(ops)]
         total = [0]
 
         def resolve(refs, i):
@@ -284,6 +367,8 @@ def strategy(quick):
                     v = ids[i - 1] if i > 0 else ids[min(i, len(ids) - 1)] ^ 1
                 elif k == "next":
                     v = ids[i + 1] if i + 1 < len(ids) else (ids[min(i, len(ids) - 1)] + 2) & 0xFFFF
+                elif k == "next2":
+                    v = ids[i + 2] if i + 2 < len(ids) else (ids[min(i, len(ids) - 1)] + 3) & 0xFFFF
                 elif k == "cur+1":
                     v = (ids[min(i, len(ids) - 1)] + 1) & 0xFFFF
                 else:
@@ -298,7 +383,14 @@ def strategy(quick):
             o["before"] = resolve(o["before"], i)
             o["queued"] = resolve(o["queued"], i) if o["via_queue"] else []
             nslots = o["yields"] + 1 + {"get": 1, "move": 2}.get(o["svc"], 0)
-            o["slots"] = [{"cancels": resolve(s["cancels"], i), "poll": s["poll"]} for s in o["slots"][:nslots]]
+            slots = []
+            for s in o["slots"][:nslots]:
+                d = {"cancels": resolve(s["cancels"], i), "poll": s["poll"]}
+                if s.get("next") and o["svc"] != "get" and i + 1 < len(ops):
+                    d["next"] = s["next"]
+                    d["cancels_after"] = resolve(s.get("cancels_after", []), i)
+                slots.append(d)
+            o["slots"] = slots
             new.append(o)
         return {"ops": new, "after": resolve(after, len(ops))}
 
